@@ -3,6 +3,7 @@
 package forwarder
 
 import (
+	"syscall"
 	"io"
 	"net"
 	"runtime"
@@ -64,10 +65,22 @@ func zzGTPConn() *net.UDPConn {
 func zzGTPDrain() {
 	buf := make([]byte, 65536)
 	for _, c := range zzGTPSink {
+		rc, err := c.SyscallConn()
+		if err != nil {
+			continue
+		}
 		for {
-			c.SetReadDeadline(time.Now().Add(2 * time.Millisecond))
-			n, _, err := c.ReadFrom(buf)
-			if err != nil {
+			// non-blocking: what the socket holds now (a short read deadline can expire before the read
+			// starts on a loaded machine and hide a datagram that is already there)
+			n := -1
+			rc.Read(func(fd uintptr) bool {
+				k, _, e := syscall.Recvfrom(int(fd), buf, syscall.MSG_DONTWAIT)
+				if e == nil {
+					n = k
+				}
+				return true
+			})
+			if n < 0 {
 				break
 			}
 			b := make([]byte, n)
